@@ -114,6 +114,83 @@ func genC06() {
 		return true
 	})
 	facts["c06_sendpsync_offset"] = offs
+
+	// ---- conditions of the run glue, and what every `if err != nil` of syncMeta /
+	// fetchInput / sendOutput / readChannel / syncData does with the error
+	var flow, errs []string
+	for _, fn := range []string{"run", "fetchInput", "syncData", "readChannel", "sendOutput"} {
+		fd := c06Func(f, "RedisInput", fn)
+		ast.Inspect(fd.Body, func(n ast.Node) bool {
+			if x, ok := n.(*ast.IfStmt); ok {
+				if c := c12Render(fset, x.Cond); c != "err != nil" {
+					flow = append(flow, fn+": "+c)
+				}
+			}
+			return true
+		})
+	}
+	facts["c06_flow_ifs"] = flow
+	var walk func(fn string, list []ast.Stmt)
+	walk = func(fn string, list []ast.Stmt) {
+		for i, st := range list {
+			switch x := st.(type) {
+			case *ast.IfStmt:
+				if c12Render(fset, x.Cond) == "err != nil" {
+					prev := "?"
+					if i > 0 {
+						prev = c12Render(fset, list[i-1])
+						if k := strings.Index(prev, "("); k > 0 {
+							prev = prev[:k]
+						}
+					}
+					ret := "falls through"
+					for _, b := range x.Body.List {
+						if _, ok := b.(*ast.ReturnStmt); ok {
+							ret = "returns"
+						}
+					}
+					errs = append(errs, fn+": "+prev+" -> "+ret)
+				}
+				walk(fn, x.Body.List)
+				if e, ok := x.Else.(*ast.BlockStmt); ok {
+					walk(fn, e.List)
+				} else if e, ok := x.Else.(*ast.IfStmt); ok {
+					walk(fn, []ast.Stmt{e})
+				}
+			case *ast.BlockStmt:
+				walk(fn, x.List)
+			}
+		}
+	}
+	for _, fn := range []string{"syncMeta", "fetchInput", "syncData", "readChannel", "sendOutput"} {
+		walk(fn, c06Func(f, "RedisInput", fn).Body.List)
+	}
+	facts["c06_err_branches"] = errs
+
+	// ---- the snapshot-to-stream hand-off: what SendRdb stores when the replay completed, and
+	// what the log sender stores (in-memory mode)
+	fset3, f3 := parseFile("syncer/output.go")
+	var hand []string
+	sr := c06Func(f3, "RedisOutput", "sendRdb")
+	if n := len(sr.Body.List); n > 0 {
+		hand = append(hand, "sendRdb: "+c12Render(fset3, sr.Body.List[n-1]))
+	}
+	for _, d := range f3.Decls {
+		fd, ok := d.(*ast.FuncDecl)
+		if !ok || fd.Body == nil {
+			continue
+		}
+		ast.Inspect(fd.Body, func(n ast.Node) bool {
+			if as, ok := n.(*ast.AssignStmt); ok {
+				t := c12Render(fset3, as)
+				if len(as.Lhs) > 0 && strings.Contains(c12Render(fset3, as.Lhs[0]), "checkpointInMem") {
+					hand = append(hand, fd.Name.Name+": "+t)
+				}
+			}
+			return true
+		})
+	}
+	facts["c06_handoff_stores"] = hand
 	_ = token.NoPos
 	_ = strings.TrimSpace
 }
